@@ -310,11 +310,14 @@ def run(m: Model, r: Report, tier: str) -> None:
         fx = m.require_function(q)
         r.check(any(isinstance(s_, ast.Expr) and isinstance(s_.value, ast.Await) and m.eqm(fx, s_.value.value, callee) for s_ in ast.walk(fx.node)), "R9", f"{q}#delegates",
                 f"must await `{callee}`", loc=fx.loc)
-    arms2 = {ast.unparse(c.pattern): c for x in ast.walk(wr.node) if isinstance(x, ast.Match) for c in x.cases}
-    r.check("RoutingActivationRequest()" in arms2 and "self._read_routing_activation_response()" in ast.unparse(arms2.get("RoutingActivationRequest()") or ast.Pass()), "R5",
+    from sa import dispatch as _dp6
+    wr_arms = _dp6.arms(wr.node, wpar[2] if len(wpar) > 2 else "payload")
+    if wr_arms is None:
+        raise AnalysisError(f"{wr.qualname}: dispatch on the payload class (match / isinstance) not found")
+    arm_ra = _dp6.arm_for(wr_arms, "RoutingActivationRequest()")
+    r.check(arm_ra is not None and any("self._read_routing_activation_response()" in ast.unparse(s_) for s_ in arm_ra.body), "R5",
             f"{wr.qualname}#activation-waits-for-response", "a routing activation request must wait for the routing activation response", loc=wr.loc)
-    mt = [n for n in ast.walk(wr.node) if isinstance(n, ast.Match)]
-    arms = [ast.unparse(c.pattern) for x in mt for c in x.cases]
+    arms = [p_ for a_ in wr_arms for p_ in a_.patterns]
     r.check("DiagnosticMessage()" in arms, "R9", f"{wr.qualname}#ack-arm", f"match arms {arms}: a diagnostic message must wait for its acknowledgement", loc=wr.loc)
 
     # ---------------------------------------------------------------- R10
